@@ -54,6 +54,34 @@ def main():
             print("MUTANT %s exit=%d" % (name, r.returncode))
         finally:
             revert()
+    elif a[0] == "suite":
+        # tools/mutants.py suite [name-prefix ...]: run every mutant's property check (quick) and tabulate
+        import time
+        only = a[1:]
+        rows = []
+        for m in load():
+            if only and not any(m["name"].startswith(o) for o in only):
+                continue
+            equiv = "EQUIVALENT" in m.get("note", "")
+            props = [m["property"]] if m["property"] != "none" else ["C03"]
+            apply(m["name"])
+            t0 = time.time()
+            try:
+                outs = []
+                for prop in props:
+                    r = subprocess.run([os.path.join(ROOT, "run.sh"), prop, "quick"], capture_output=True, text=True)
+                    sig = next((l.strip()[2:] for l in r.stdout.splitlines() if l.startswith("  # ")), "")
+                    outs.append((prop, r.returncode, sig))
+            finally:
+                revert()
+            for prop, rc, sig in outs:
+                verdict = ("silent (expected: equivalent)" if rc == 0 else "ALARM ON EQUIVALENT CHANGE") if equiv else ("caught" if rc == 1 else ("MISSED" if rc == 0 else "inconclusive rc=%d" % rc))
+                rows.append(dict(mutant=m["name"], property=prop, exit=rc, verdict=verdict, first_signature=sig[:160], note=m.get("note", ""), secs=round(time.time() - t0, 1)))
+                print("%-42s %-4s %-32s %s" % (m["name"], prop, verdict, sig[:90]), flush=True)
+        path = os.path.join(ROOT, "mutants", "RESULTS.json")
+        old = json.load(open(path)) if os.path.exists(path) else []
+        old = [o for o in old if not any(o["mutant"] == r["mutant"] and o["property"] == r["property"] for r in rows)]
+        json.dump(old + rows, open(path, "w"), indent=1)
     else:
         sys.exit(__doc__)
 
